@@ -453,6 +453,13 @@ def _directed():
     yield _mk(two, [T(2), R(-1, 0), R(-1, 1), NEW, I(0, 0), I(0, 1), R(0, 1), T(3), R(0, 1), R(-1, 1),
                     {'op': 'assign', 'tg': -1, 'p': 1, 'src': {'const': 7}}, NEW, R(1, 1), R(0, 1),
                     {'op': 'assign', 'tg': -1, 'p': 1, 'src': _st(2)}, R(1, 1), NEW, R(2, 1), R(1, 1)])
+    # an instance that has no value of its own reads (and must push/pop) the generator of the class
+    yield _mk([_p('dynamic', {'const': 4}), _p('number', _st(0))],
+              [NEW, {'op': 'assign', 'tg': -1, 'p': 0, 'src': _st(2)}, T(1), R(0, 0), R(0, 1), {'op': 'push', 'i': 0},
+               T(7), R(0, 0), R(0, 1), F(0, 0), {'op': 'pop', 'i': 0}, I(0, 0), I(0, 1), T(1), R(0, 0), R(-1, 0)])
+    yield _mk([_p('dynamic', {'const': 4})],
+              [NEW, NEW, {'op': 'assign', 'tg': -1, 'p': 0, 'src': _td('n', 12)}, T(2), R(0, 0), {'op': 'push', 'i': 1},
+               T(3), R(1, 0), {'op': 'pop', 'i': 1}, I(0, 0), T(2), R(0, 0)])
     # shared generator: same object on two instances and twice on one instance
     yield _mk([_p('dynamic', _td()), _p('dynamic', {'const': 5})],
               [NEW, NEW, {'op': 'assign', 'tg': 0, 'p': 0, 'src': _td('h', 1)},
